@@ -75,7 +75,45 @@ def gen_plan(base_seed, i, tier):
         steps.append(step)
         if rng.random() < 0.1 and s < nsteps - 1:
             steps.append({"op": "lose", "pick": rng.getrandbits(16)})
-    return {"property": "C12", "kind": "history", "steps": steps}
+    plan = {"property": "C12", "kind": "history", "steps": steps}
+    u = rng.random()
+    if u < 0.2 and not two_cols:
+        # one or two Balancer objects that stay alive over the whole history (built up front, configured through
+        # their public attributes before each call, cache switched off and on again); no kills in these histories
+        plan["objects"] = rng.choice([1, 2])
+        for st in steps:
+            if st["op"] == "run":
+                st["obj"] = rng.randrange(plan["objects"])
+                st["config"]["reaction_col"] = "reaction"
+                st["config"].pop("threshold_via", None)
+                for k in ("crash_frac", "enospc_frac", "eio"):
+                    st.pop(k, None)
+                if rng.random() < 0.2:
+                    st["cache_off"] = True
+        plan["steps"] = [st for st in steps if st["op"] == "run"]
+    elif u < 0.3:
+        # the same batch twice within one run
+        for st in steps:
+            if st["op"] == "run" and isinstance(st["rows"][0], str):
+                st["rows"] = st["rows"] + st["rows"]
+                st["config"]["batch_size"] = len(st["rows"]) // 2
+    elif u < 0.45 and not two_cols:
+        # malformed rows and pass-through columns (also with missing values) in cached runs
+        from .c05 import POISON
+
+        bad = [rng.choice(POISON[k]) for k in rng.sample(["unparsable", "no_sep", "reagent_style", "two_sep", "empty_string"], 2)]
+        as_dicts = rng.random() < 0.5
+        for st in steps:
+            if st["op"] != "run":
+                continue
+            rows = list(st["rows"])
+            for b in bad:
+                if rng.random() < 0.7:
+                    rows.insert(rng.randint(0, len(rows)), b)
+            if as_dicts:
+                rows = [{"reaction": r, "tag": "t%d" % (H(r) % 97), "val": (None if H(r, "v") % 3 == 0 else H(r, "v") % 11)} for r in rows]
+            st["rows"] = rows
+    return plan
 
 
 def extra_plans(tier, base_seed):
@@ -94,7 +132,10 @@ def extra_plans(tier, base_seed):
 _uncached_memo = {}
 
 
-def _run(rows, config, sched_seed, cache, **simkw):
+_DEFAULT_COLUMNS = {}
+
+
+def _run(rows, config, sched_seed, cache, balancer=None, **simkw):
     from simworld import runner
 
     sim = {"sched_seed": sched_seed}
@@ -112,7 +153,15 @@ def _run(rows, config, sched_seed, cache, **simkw):
     spec = {"rows": rows, "source": source, "config": cfg, "sim": sim}
     if config.get("extra_columns"):
         spec["extra_columns"] = config["extra_columns"]  # Balancer.columns is public, mutable configuration
-    return runner.run_once(spec)
+    if balancer is not None:
+        # a long-lived object: everything is (re)configured through its public attributes
+        balancer.columns = list(_DEFAULT_COLUMNS.setdefault(id(balancer), list(balancer.columns)))
+        balancer.confidence_threshold = cfg["threshold"]
+        balancer.batch_size = cfg["batch_size"]
+        balancer.n_jobs = cfg["n_jobs"]
+        balancer.remove_aam = config.get("remove_aam") is not False
+        balancer.cache = bool(cache)
+    return runner.run_once(spec, balancer=balancer)
 
 
 def uncached(rows, config, sched_seed):
@@ -175,6 +224,12 @@ def execute(plan):
     seen_conf = []
     hits = crashes = 0
     trace = []
+    objects = []
+    if plan.get("objects"):
+        from simworld import runner
+
+        runner.setup()
+        objects = [runner.make_balancer({"n_jobs": 1, "threshold": 0, "cache": True}) for _ in range(plan["objects"])]
     for si, step in enumerate(plan["steps"]):
         if step["op"] == "lose":
             names = sorted(FS.files)
@@ -219,11 +274,12 @@ def execute(plan):
             kw["eio"] = step["eio"]
         if "crash_abs" in step:
             kw = {{"open": "crash_open", "op": "crash_op", "wcall": "crash_wcall"}.get(step["crash_abs"][0], "crash_after"): step["crash_abs"][1]}
-        res = _run(rows, cfg, step["sched_seed"], cache=True, **kw)
+        bal = objects[step["obj"]] if objects and "obj" in step else None
+        res = _run(rows, cfg, step["sched_seed"], cache=not step.get("cache_off"), balancer=bal, **kw)
         out["runs"] += 1
         out["summary"].append(common.run_summary(res))
         hits += res["probes"].get("cache_file_reads", 0)
-        where = "step %d (batch_size=%s threshold=%r col=%s%s)" % (si, cfg.get("batch_size"), cfg["threshold"], cfg.get("reaction_col"), " after %s" % "; ".join(trace[-3:]) if trace else "")
+        where = "step %d%s (batch_size=%s threshold=%r col=%s%s)" % (si, " on long-lived Balancer #%d%s" % (step["obj"], ", cache off" if step.get("cache_off") else "") if bal is not None else "", cfg.get("batch_size"), cfg["threshold"], cfg.get("reaction_col"), " after %s" % "; ".join(trace[-3:]) if trace else "")
         if res["crashed"]:
             crashes += 1
             trace.append("step %d killed at %s" % (si, kw))
